@@ -46,8 +46,36 @@ Definition enc_peak (p : nat * nat * Z) : list Z :=
   let '(tr, pk, v) := p in [zn tr; zn pk; v].
 Definition enc_pm (p : nat * Z) : list Z := [zn (fst p); snd p].
 
-(* mode 0: compute_spike_features; mode 1: find_peak ++ pick_maxima ++ weights_spk_ch.
-   n < 0 encodes a 2-D input (one waveform, no leading axis). *)
+(* mode 2: the stage functions called directly on an (N, T) matrix with caller-chosen
+   per-row parameters (peak index, peak value, sign flag, trough index) — not only the
+   states compute_spike_features reaches.  data = N rows of  pk :: pv :: s :: tq :: T samples;
+   k = idx_from_trough.  Output: arr_pre ++ arr_post per row (NaN = nan_code), then
+   find_trough rows, find_tip rows (each [0] when the call raises, else 1 :: idx val pairs),
+   half_peak_point rows (post, pre, post_val, pre_val), recovery_point ([0] when k >= T). *)
+Definition hrow : Type := (nat * Z * Z * nat * list Z)%type.
+Definition dec_hrows (N T : nat) (data : list Z) : list hrow :=
+  map (fun ch => match ch with
+                 | pk :: pv :: s :: tq :: a => (Z.to_nat pk, pv, s, Z.to_nat tq, a)
+                 | _ => (O, 0, 0, O, [])
+                 end) (chunks N (T + 4) data).
+Definition enc_mask (l : list (option Z)) : list Z :=
+  map (fun o => match o with Some v => v | None => nan_code end) l.
+Definition enc_rows (o : option (list (nat * Z))) : list Z :=
+  match o with None => [0] | Some l => 1 :: flat_map enc_pm l end.
+
+Definition run_helpers (k T : nat) (rows : list hrow) : list Z :=
+  flat_map (fun r => let '(pk, _, _, _, a) := r in enc_mask (mask_pre a pk) ++ enc_mask (mask_post a pk)) rows
+  ++ enc_rows (sequence (map (fun r => let '(pk, _, s, _, a) := r in find_trough a pk s) rows))
+  ++ enc_rows (sequence (map (fun r => let '(pk, _, s, _, a) := r in find_tip a pk s) rows))
+  ++ flat_map (fun r => let '(pk, pv, s, _, a) := r in
+                 let hpo := half_post a pk pv s in let hpr := half_pre a pk pv s in
+                 [zn hpo; zn hpr; vat a hpo s; vat a hpr s]) rows
+  ++ (if (T <=? k)%nat then [0]
+      else 1 :: flat_map (fun r => let '(_, _, s, tq, a) := r in
+                            let rc := recovery_idx T k tq in [zn rc; vat a rc s]) rows).
+
+(* mode 0: compute_spike_features; mode 1: find_peak ++ pick_maxima ++ weights_spk_ch;
+   mode 2: run_helpers.  n < 0 encodes a 2-D input (one waveform, no leading axis). *)
 Definition run (inp : list Z) : list Z :=
   match inp with
   | mode :: k :: n :: t :: c :: data =>
@@ -57,13 +85,14 @@ Definition run (inp : list Z) : list Z :=
         | None => [0]
         | Some fs => 1 :: Z.of_nat (length fs) :: flat_map enc_feats fs
         end
-      else
+      else if mode =? 1 then
         match find_peak i, pick_maxima_pub i, weights_spk_ch (validate_arr_in i) with
         | Some ps, Some pms, Some wts =>
             1 :: Z.of_nat (length ps) :: flat_map enc_peak ps
               ++ flat_map (fun pm => flat_map enc_pm pm) pms ++ flat_map (fun l => l) wts
         | _, _, _ => [0]
         end
+      else run_helpers (Z.to_nat k) (Z.to_nat t) (dec_hrows (Z.to_nat n) (Z.to_nat t) data)
   | _ => [-999]
   end.
 
